@@ -4,6 +4,11 @@ seeded/*/meta.json and seeded/RESULTS.md."""
 import json, glob, os, re
 
 NOTES = {
+ "C08-7": "missed at first (needs count 256 and more than 128 epochs): long linear histories added (tick^p, resize, tick^300) - they also exposed the count > 256 defect fixed in f20fb53",
+ "C16-11": "missed at first: ballot lists with several entries, the live one not last",
+ "C17-8": "missed at first (needs three pending ballots): the timing exploration votes for three ids",
+ "C19-9": "caught through the user who is one unit short of the fees (added after the clause review)",
+ "C14-7": "caught through the rosters that list a member twice (added after the clause review)",
  "C11-6": "missed by C11 at first (C10 caught it): registration of a fresh second-level name for an owner that does not witness (an account, a deployed contract)",
  "C03-5": "missed by C03 at first (C19 caught it): emit row right after the Inner Ring went to somebody else; the ring member as a signer set",
  "C05-5": "missed at first: grids on chains whose Inner Ring is larger than the Alphabet; preparatory puts are judged too",
